@@ -117,6 +117,10 @@ func (g *cyGen) relPat(bind bool) string {
 	if !expansion && g.rng.Chance(1, 8) {
 		body += " {w: " + Pick(g.rng, cyNumLits) + "}"
 		g.use("rel-propmap")
+	} else if expansion && g.rng.Chance(1, 6) {
+		// the grammar wants the map directly after the range
+		body += "{w: " + Pick(g.rng, cyNumLits) + "}"
+		g.use("varlen-propmap")
 	}
 	if body != "" {
 		body = "[" + body + "]"
@@ -461,11 +465,11 @@ func (g *cyGen) tail(items []cyItem) string {
 	// SKIP / LIMIT only together with ORDER BY (otherwise the result is an arbitrary subset in both languages)
 	if cut && g.rng.Chance(1, 2) {
 		g.use("skip")
-		b.WriteString(" skip " + Pick(g.rng, []string{"0", "1", "2"}))
+		b.WriteString(" skip " + Pick(g.rng, []string{"0", "0", "1", "1", "2", "2", "1000"}))
 	}
 	if cut && g.rng.Chance(2, 3) {
 		g.use("limit")
-		b.WriteString(" limit " + Pick(g.rng, []string{"0", "1", "2", "5"}))
+		b.WriteString(" limit " + Pick(g.rng, []string{"0", "0", "1", "1", "2", "2", "5", "5", "2147483648", "9223372036854775807"}))
 	}
 	return b.String()
 }
